@@ -1,5 +1,5 @@
 (* Proofs about the model of src/testing/assertions.rs. *)
-From Coq Require Import List ZArith Bool Arith Lia Permutation.
+From Coq Require Import List ZArith Bool Arith Lia Permutation Sorting.
 From IB Require Import Testing.Assertions.
 Import ListNotations.
 
@@ -28,3 +28,545 @@ Section Ordered.
     - intros ->. split; [reflexivity|]. apply pairwise_eqb_eq; reflexivity.
   Qed.
 End Ordered.
+
+(* ---------- assert_collections_unordered_equal: occurrence counts = multiset equality ---------- *)
+Section Unordered.
+  Variable A : Type.
+  Variable eqb : A -> A -> bool.
+  Hypothesis eqb_spec : forall x y, reflect (x = y) (eqb x y).
+
+  Definition dec_of_reflect : forall x y : A, {x = y} + {x <> y}.
+  Proof. intros x y. destruct (eqb_spec x y); [left|right]; assumption. Defined.
+
+  Lemma count_count_occ : forall (dec : forall x y : A, {x = y} + {x <> y}) x l,
+      count eqb x l = count_occ dec l x.
+  Proof.
+    intros dec x l. induction l as [|y l IH]; cbn [count count_occ]; [reflexivity|].
+    rewrite IH. destruct (eqb_spec x y) as [Heq|Hne]; destruct (dec y x) as [He|Hn]; try reflexivity.
+    - exfalso. apply Hn. symmetry. exact Heq.
+    - exfalso. apply Hne. symmetry. exact He.
+  Qed.
+
+  Lemma count_not_in : forall x l, ~ In x l -> count eqb x l = 0.
+  Proof.
+    intros x l. induction l as [|y l IH]; cbn [count In]; intros Hn; [reflexivity|].
+    destruct (eqb_spec x y) as [->|Hne]; [exfalso; apply Hn; left; reflexivity|].
+    rewrite IH; [reflexivity|]. intros Hi. apply Hn. right. exact Hi.
+  Qed.
+
+  Lemma counts_equal_iff : forall a e,
+      counts_equal eqb a e = true <-> forall x, count eqb x a = count eqb x e.
+  Proof.
+    intros a e. unfold counts_equal. rewrite forallb_forall. split.
+    - intros H x. destruct (in_dec dec_of_reflect x (a ++ e)) as [Hi|Hn].
+      + apply Nat.eqb_eq. apply H. exact Hi.
+      + rewrite !count_not_in; [reflexivity| |]; intros Hi; apply Hn; apply in_or_app; auto.
+    - intros H x _. apply Nat.eqb_eq. apply H.
+  Qed.
+
+  Lemma counts_equal_perm : forall a e, counts_equal eqb a e = true <-> Permutation a e.
+  Proof.
+    intros a e. rewrite counts_equal_iff, (Permutation_count_occ dec_of_reflect).
+    split; intros H x; specialize (H x); rewrite ?(count_count_occ dec_of_reflect) in *; exact H.
+  Qed.
+
+  Lemma unordered_iff : forall a e,
+      assert_collections_unordered_equal eqb a e = true <-> Permutation a e.
+  Proof.
+    intros a e. unfold assert_collections_unordered_equal.
+    rewrite andb_true_iff, Nat.eqb_eq, counts_equal_perm. split.
+    - intros [_ H]. exact H.
+    - intros H. split; [apply Permutation_length|]; exact H.
+  Qed.
+
+  Lemma unordered_multiplicity : forall (dec : forall x y : A, {x = y} + {x <> y}) a e x,
+      count_occ dec a x <> count_occ dec e x ->
+      assert_collections_unordered_equal eqb a e = false.
+  Proof.
+    intros dec a e x Hne. apply not_true_is_false. intros Hacc.
+    apply unordered_iff in Hacc. apply Hne. apply (Permutation_count_occ dec). exact Hacc.
+  Qed.
+End Unordered.
+
+(* ---------- assert_kv_collections_equal: stable sort by key + greedy matching per key run ---------- *)
+(* ---------- generic list facts ---------- *)
+Lemma Permutation_filter_compat : forall {X} (f : X -> bool) (l l' : list X),
+    Permutation l l' -> Permutation (filter f l) (filter f l').
+Proof.
+  intros X f l l' H. induction H as [|x l l' _ IH|x y l|l l' l'' _ IH1 _ IH2]; cbn [filter].
+  - constructor.
+  - destruct (f x); [constructor|]; exact IH.
+  - destruct (f x), (f y); try apply Permutation_refl. apply perm_swap.
+  - eapply Permutation_trans; eassumption.
+Qed.
+
+(* ---------- the stable sort by key ---------- *)
+Section SortByKey.
+  Variable X : Type.
+  Definition kle (x y : Z * X) : Prop := (fst x <= fst y)%Z.
+  Definition ksorted (l : list (Z * X)) : Prop := StronglySorted kle l.
+
+  Lemma insert_by_key_perm : forall (x : Z * X) (l : list (Z * X)), Permutation (x :: l) (insert_by_key x l).
+  Proof.
+    intros x l. induction l as [|y l IH]; cbn [insert_by_key]; [apply Permutation_refl|].
+    destruct (Z.leb (fst x) (fst y)); [apply Permutation_refl|].
+    eapply Permutation_trans; [apply perm_swap|]. constructor. exact IH.
+  Qed.
+
+  Lemma sort_by_key_perm : forall l : list (Z * X), Permutation (sort_by_key l) l.
+  Proof.
+    induction l as [|x l IH]; cbn [sort_by_key fold_right]; [constructor|].
+    eapply Permutation_trans; [apply Permutation_sym, insert_by_key_perm|].
+    constructor. exact IH.
+  Qed.
+
+  Lemma insert_by_key_sorted : forall (x : Z * X) (l : list (Z * X)), ksorted l -> ksorted (insert_by_key x l).
+  Proof.
+    intros x l. induction l as [|y l IH]; intros Hs; cbn [insert_by_key].
+    - constructor; constructor.
+    - apply StronglySorted_inv in Hs. destruct Hs as [Hs Hall].
+      destruct (Z.leb_spec (fst x) (fst y)) as [Hle|Hgt].
+      + constructor; [constructor; assumption|]. constructor; [exact Hle|].
+        eapply Forall_impl; [|exact Hall]. intros z Hz. unfold kle in *. lia.
+      + constructor; [apply IH; exact Hs|].
+        eapply Permutation_Forall; [apply insert_by_key_perm|].
+        constructor; [unfold kle; lia|exact Hall].
+  Qed.
+
+  Lemma sort_by_key_sorted : forall l : list (Z * X), ksorted (sort_by_key l).
+  Proof.
+    induction l as [|x l IH]; cbn [sort_by_key fold_right]; [constructor|].
+    apply insert_by_key_sorted. exact IH.
+  Qed.
+
+  Definition keyis (k : Z) (x : Z * X) : bool := Z.eqb (fst x) k.
+  Definition keyisnt (k : Z) (x : Z * X) : bool := negb (Z.eqb (fst x) k).
+
+  Lemma filter_above : forall k (l : list (Z * X)),
+      Forall (fun x => (k < fst x)%Z) l -> filter (keyis k) l = [] /\ filter (keyisnt k) l = l.
+  Proof.
+    intros k l H. induction H as [|x l Hx _ [IH1 IH2]]; cbn [filter]; [split; reflexivity|].
+    unfold keyis at 1, keyisnt at 1. destruct (Z.eqb_spec (fst x) k) as [He|_]; [lia|].
+    cbn [negb]. rewrite IH2. split; [exact IH1|reflexivity].
+  Qed.
+
+  Lemma ksorted_skipn : forall n (l : list (Z * X)), ksorted l -> ksorted (skipn n l).
+  Proof.
+    induction n as [|n IH]; intros l Hs; [exact Hs|].
+    destruct l as [|x l]; [exact Hs|]. cbn [skipn]. apply IH.
+    apply StronglySorted_inv in Hs. apply Hs.
+  Qed.
+End SortByKey.
+Arguments kle {X}. Arguments ksorted {X}. Arguments keyis {X}. Arguments keyisnt {X}.
+
+Section KV.
+  Variable V : Type.
+  Variable veqb : V -> V -> bool.
+  Hypothesis veqb_spec : forall x y, reflect (x = y) (veqb x y).
+
+  (* rows of a key run that are not yet marked as used *)
+  Fixpoint unused (run : list (Z * V)) (used : list bool) : list (Z * V) :=
+    match run, used with
+    | r :: run', u :: used' => if u then unused run' used' else r :: unused run' used'
+    | _, _ => []
+    end.
+
+  Lemma unused_fresh : forall run n, length run <= n -> unused run (repeat false n) = run.
+  Proof.
+    induction run as [|r run IH]; intros n Hn; [destruct n; reflexivity|].
+    destruct n as [|n]; cbn [length] in Hn; [lia|]. cbn [repeat unused].
+    rewrite IH; [reflexivity|lia].
+  Qed.
+
+  Lemma find_unused_none : forall ak av run used,
+      find_unused veqb ak av run used = None -> ~ In (ak, av) (unused run used).
+  Proof.
+    intros ak av run. induction run as [|[k v] run IH]; intros used Hf; [intros []|].
+    destruct used as [|u used]; [intros []|]. cbn [find_unused unused] in *.
+    destruct u; cbn [negb andb] in Hf.
+    - destruct (find_unused veqb ak av run used) eqn:Hr; [discriminate|]. apply IH. exact Hr.
+    - destruct (Z.eqb_spec k ak) as [Hk|Hk]; cbn [andb] in Hf.
+      + destruct (veqb_spec v av) as [Hv|Hv]; [discriminate|].
+        destruct (find_unused veqb ak av run used) eqn:Hr; [discriminate|].
+        intros [Hi|Hi]; [injection Hi as _ Hv'; contradiction|]. revert Hi. apply IH. exact Hr.
+      + destruct (find_unused veqb ak av run used) eqn:Hr; [discriminate|].
+        intros [Hi|Hi]; [injection Hi as Hk' _; contradiction|]. revert Hi. apply IH. exact Hr.
+  Qed.
+
+  Lemma find_unused_some : forall ak av run used o,
+      find_unused veqb ak av run used = Some o ->
+      Permutation (unused run used) ((ak, av) :: unused run (set_used o used)).
+  Proof.
+    intros ak av run. induction run as [|[k v] run IH]; intros used o Hf; [discriminate|].
+    destruct used as [|u used]; [discriminate|]. cbn [find_unused] in Hf.
+    assert (Hrec : forall o', find_unused veqb ak av run used = Some o' ->
+              Permutation (unused ((k, v) :: run) (u :: used))
+                          ((ak, av) :: unused ((k, v) :: run) (set_used (S o') (u :: used)))).
+    { intros o' Ho'. cbn [unused set_used]. specialize (IH used o' Ho').
+      destruct u; [exact IH|].
+      eapply Permutation_trans; [|apply perm_swap]. constructor. exact IH. }
+    destruct u; cbn [negb andb] in Hf.
+    - destruct (find_unused veqb ak av run used) as [o'|] eqn:Hr; [|discriminate].
+      injection Hf as <-. apply Hrec. reflexivity.
+    - destruct (Z.eqb_spec k ak) as [Hk|Hk]; cbn [andb] in Hf.
+      + destruct (veqb_spec v av) as [Hv|Hv].
+        * injection Hf as <-. subst. cbn [unused set_used]. apply Permutation_refl.
+        * destruct (find_unused veqb ak av run used) as [o'|] eqn:Hr; [|discriminate].
+          injection Hf as <-. apply Hrec. reflexivity.
+      + destruct (find_unused veqb ak av run used) as [o'|] eqn:Hr; [|discriminate].
+        injection Hf as <-. apply Hrec. reflexivity.
+  Qed.
+
+  (* greedy matching with a decidable equality is complete *)
+  Lemma match_run_iff : forall arun erun used,
+      match_run veqb arun erun used = true <->
+      exists rest, Permutation (unused erun used) (arun ++ rest).
+  Proof.
+    induction arun as [|[ak av] arun IH]; intros erun used; cbn [match_run].
+    - split; [intros _; exists (unused erun used); apply Permutation_refl|reflexivity].
+    - destruct (find_unused veqb ak av erun used) as [o|] eqn:Hf.
+      + apply find_unused_some in Hf. rewrite IH. split; intros [rest Hp]; exists rest.
+        * eapply Permutation_trans; [exact Hf|]. cbn [app]. constructor. exact Hp.
+        * cbn [app] in Hp. eapply Permutation_cons_inv.
+          eapply Permutation_trans; [apply Permutation_sym; exact Hf|exact Hp].
+      + apply find_unused_none in Hf. split; [discriminate|]. intros [rest Hp]. exfalso.
+        apply Hf. eapply Permutation_in; [apply Permutation_sym; exact Hp|]. left. reflexivity.
+  Qed.
+
+  Lemma match_run_fresh_iff : forall arun erun n,
+      length arun = n -> length erun = n ->
+      (match_run veqb arun erun (repeat false n) = true <-> Permutation arun erun).
+  Proof.
+    intros arun erun n Ha He. rewrite match_run_iff, unused_fresh by lia. split.
+    - intros [rest Hp]. assert (Hl := Permutation_length Hp). rewrite app_length in Hl.
+      destruct rest as [|r rest]; [|cbn [length] in Hl; lia].
+      rewrite app_nil_r in Hp. apply Permutation_sym. exact Hp.
+    - intros Hp. exists []. rewrite app_nil_r. apply Permutation_sym. exact Hp.
+  Qed.
+
+  (* shape of a key-sorted list whose keys are all >= k: the k-run, then the rest *)
+  Lemma run_split : forall k (l : list (Z * V)),
+      ksorted l -> Forall (fun x => (k <= fst x)%Z) l ->
+      firstn (run_len k l) l = filter (keyis k) l /\ skipn (run_len k l) l = filter (keyisnt k) l.
+  Proof.
+    intros k l. induction l as [|[k' v'] l IH]; intros Hs Hge; [split; reflexivity|].
+    apply StronglySorted_inv in Hs. destruct Hs as [Hs Hall].
+    apply Forall_cons_iff in Hge. destruct Hge as [Hk Hge]. cbn [fst] in Hk.
+    cbn [run_len filter]. unfold keyis at 1, keyisnt at 1. cbn [fst].
+    destruct (Z.eqb_spec k' k) as [->|Hne]; cbn [negb firstn skipn].
+    - destruct (IH Hs Hge) as [IH1 IH2]. rewrite IH1, IH2. split; reflexivity.
+    - assert (Hab : Forall (fun x : Z * V => (k < fst x)%Z) l).
+      { eapply Forall_impl; [|exact Hall]. intros z Hz. unfold kle in Hz. cbn [fst] in Hz. lia. }
+      destruct (filter_above V k l Hab) as [F1 F2]. rewrite F1, F2. split; reflexivity.
+  Qed.
+
+  Lemma run_len_le : forall k (l : list (Z * V)), run_len k l <= length l.
+  Proof.
+    intros k l. induction l as [|[k' v'] l IH]; cbn [run_len length]; [lia|].
+    destruct (Z.eqb k' k); lia.
+  Qed.
+
+  Lemma match_runs_sound : forall fuel a e,
+      length a = length e -> match_runs veqb fuel a e = true -> Permutation a e.
+  Proof.
+    induction fuel as [|fuel IH]; intros a e Hlen Hm; cbn [match_runs] in Hm.
+    - destruct a; [|discriminate]. destruct e; [constructor|discriminate].
+    - destruct a as [|[k v] a']; [destruct e; [constructor|discriminate]|].
+      set (n := S (run_len k a')) in *. apply andb_true_iff in Hm. destruct Hm as [Hrun Hrest].
+      assert (Hn : n <= length ((k, v) :: a')).
+      { unfold n. cbn [length]. pose proof (run_len_le k a'). lia. }
+      apply match_run_fresh_iff in Hrun;
+        [|rewrite firstn_length; lia|rewrite firstn_length; lia].
+      apply IH in Hrest; [|rewrite !skipn_length; lia].
+      rewrite <- (firstn_skipn n ((k, v) :: a')), <- (firstn_skipn n e).
+      apply Permutation_app; assumption.
+  Qed.
+
+  Lemma match_runs_complete : forall fuel a e,
+      length a <= fuel -> ksorted a -> ksorted e -> Permutation a e ->
+      match_runs veqb fuel a e = true.
+  Proof.
+    induction fuel as [|fuel IH]; intros a e Hfuel Hsa Hse Hp; cbn [match_runs].
+    - destruct a; [reflexivity|cbn [length] in Hfuel; lia].
+    - destruct a as [|[k v] a']; [reflexivity|].
+      set (a := (k, v) :: a') in *. set (n := S (run_len k a')).
+      assert (Hn : n = run_len k a).
+      { unfold n, a. cbn [run_len]. rewrite Z.eqb_refl. reflexivity. }
+      assert (Hga : Forall (fun x : Z * V => (k <= fst x)%Z) a).
+      { unfold a. pose proof (StronglySorted_inv Hsa) as [_ Hall].
+        constructor; [cbn [fst]; lia|]. exact Hall. }
+      assert (Hge : Forall (fun x : Z * V => (k <= fst x)%Z) e).
+      { eapply Permutation_Forall; eassumption. }
+      destruct (run_split k a Hsa Hga) as [Fa Sa].
+      assert (Hpf := Permutation_filter_compat (keyis k) _ _ Hp).
+      assert (Hps := Permutation_filter_compat (keyisnt k) _ _ Hp).
+      (* e starts with its own k-run, which has the same length n *)
+      assert (He : e = filter (keyis k) e ++ filter (keyisnt k) e).
+      { destruct (run_split k e Hse Hge) as [Fe Se]. rewrite <- Fe, <- Se.
+        symmetry. apply firstn_skipn. }
+      assert (Hnf : length (filter (keyis k) e) = n).
+      { rewrite <- (Permutation_length Hpf), <- Fa, firstn_length, <- Hn.
+        pose proof (run_len_le k a). lia. }
+      assert (Fe : firstn n e = filter (keyis k) e).
+      { rewrite He at 1. rewrite firstn_app, Hnf, Nat.sub_diag. cbn [firstn].
+        rewrite app_nil_r. apply firstn_all2. lia. }
+      assert (Se : skipn n e = filter (keyisnt k) e).
+      { rewrite He at 1. rewrite skipn_app, Hnf, Nat.sub_diag. cbn [skipn].
+        rewrite skipn_all2 by lia. reflexivity. }
+      rewrite Hn in Fe, Se |- *. rewrite Fa, Sa, Fe, Se. rewrite <- Hn.
+      apply andb_true_iff. split.
+      + apply match_run_fresh_iff; [| |exact Hpf].
+        * rewrite <- Fa, firstn_length, <- Hn. pose proof (run_len_le k a). lia.
+        * exact Hnf.
+      + apply IH; [| | |exact Hps].
+        * rewrite <- Sa, skipn_length, <- Hn. unfold n. unfold a in *. cbn [length] in *. lia.
+        * rewrite <- Sa. apply ksorted_skipn. exact Hsa.
+        * rewrite <- Se. apply ksorted_skipn. exact Hse.
+  Qed.
+
+  Lemma kv_iff : forall a e : list (Z * V),
+      assert_kv_collections_equal veqb a e = true <-> Permutation a e.
+  Proof.
+    intros a e. unfold assert_kv_collections_equal.
+    rewrite andb_true_iff, Nat.eqb_eq. split.
+    - intros [Hlen Hm]. apply match_runs_sound in Hm; [|exact Hlen].
+      eapply Permutation_trans; [apply Permutation_sym, sort_by_key_perm|].
+      eapply Permutation_trans; [exact Hm|apply sort_by_key_perm].
+    - intros Hp.
+      assert (Hps : Permutation (sort_by_key a) (sort_by_key e)).
+      { eapply Permutation_trans; [apply sort_by_key_perm|].
+        eapply Permutation_trans; [exact Hp|apply Permutation_sym, sort_by_key_perm]. }
+      split; [apply Permutation_length; exact Hps|].
+      apply match_runs_complete; [lia|apply sort_by_key_sorted|apply sort_by_key_sorted|exact Hps].
+  Qed.
+End KV.
+
+(* ---------- assert_grouped_kv_equal ---------- *)
+Lemma Forall2_same_length : forall {X Y} (R : X -> Y -> Prop) l l',
+    Forall2 R l l' -> length l = length l'.
+Proof.
+  intros X Y R l l' H. induction H as [|x y l l' _ _ IH]; cbn [length]; [reflexivity|].
+  rewrite IH. reflexivity.
+Qed.
+
+Section Grouped.
+  Variable V : Type.
+  Variable veqb : V -> V -> bool.
+  Hypothesis veqb_spec : forall x y, reflect (x = y) (veqb x y).
+
+  (* same key, same multiset of values *)
+  Definition group_eq (x y : Z * list V) : Prop := fst x = fst y /\ Permutation (snd x) (snd y).
+
+  (* the two grouped collections can be paired off group by group *)
+  Definition grouped_equiv (a e : list (Z * list V)) : Prop :=
+    exists e', Permutation e e' /\ Forall2 group_eq a e'.
+
+  Lemma grouped_pairwise_iff : forall a e,
+      length a = length e -> (grouped_pairwise veqb a e = true <-> Forall2 group_eq a e).
+  Proof.
+    induction a as [|[ak av] a IH]; intros [|[ek ev] e] Hlen; cbn [length] in Hlen; try discriminate.
+    - split; [constructor|reflexivity].
+    - injection Hlen as Hlen. cbn [grouped_pairwise].
+      rewrite !andb_true_iff, Z.eqb_eq, (counts_equal_perm V veqb veqb_spec), (IH e Hlen). split.
+      + intros [[Hk Hv] Hr]. constructor; [split; assumption|exact Hr].
+      + intros H. inversion H as [|x y l l' [Hk Hv] Hr]; subst. cbn [fst snd] in *. auto.
+  Qed.
+
+  Lemma grouped_sorted_iff : forall a e,
+      assert_grouped_kv_equal veqb a e = true <-> Forall2 group_eq (sort_by_key a) (sort_by_key e).
+  Proof.
+    intros a e. unfold assert_grouped_kv_equal. rewrite andb_true_iff, Nat.eqb_eq. split.
+    - intros [Hlen Hp]. apply grouped_pairwise_iff; assumption.
+    - intros H. assert (Hlen := Forall2_same_length _ _ _ H). split; [exact Hlen|].
+      apply grouped_pairwise_iff; assumption.
+  Qed.
+
+  Lemma grouped_sound : forall a e,
+      assert_grouped_kv_equal veqb a e = true -> grouped_equiv a e.
+  Proof.
+    intros a e H. apply grouped_sorted_iff in H.
+    destruct (Permutation_Forall2 (sort_by_key_perm _ a) H) as [e' [Hp HF]].
+    exists e'. split; [|exact HF].
+    eapply Permutation_trans; [apply Permutation_sym, sort_by_key_perm|exact Hp].
+  Qed.
+
+  Lemma group_eq_keys : forall a e, Forall2 group_eq a e -> map fst a = map fst e.
+  Proof.
+    intros a e H. induction H as [|x y a e [Hk _] _ IH]; cbn [map]; [reflexivity|].
+    rewrite Hk, IH. reflexivity.
+  Qed.
+
+  Lemma ksorted_keys : forall {X Y} (l : list (Z * X)) (l' : list (Z * Y)),
+      map fst l = map fst l' -> ksorted l -> ksorted l'.
+  Proof.
+    intros X Y l. induction l as [|x l IH]; intros [|y l'] Hm Hs; cbn [map] in Hm; try discriminate.
+    - constructor.
+    - injection Hm as Hk Hm. apply StronglySorted_inv in Hs. destruct Hs as [Hs Hall].
+      constructor; [apply (IH l' Hm Hs)|].
+      rewrite Forall_forall in Hall |- *. intros z Hz.
+      assert (Hin : In (fst z) (map fst l)) by (rewrite Hm; apply in_map; exact Hz).
+      apply in_map_iff in Hin. destruct Hin as [w [Hw Hwin]].
+      specialize (Hall w Hwin). unfold kle in *. lia.
+  Qed.
+
+  (* a collection with pairwise distinct keys has exactly one key-sorted arrangement *)
+  Lemma ksorted_perm_unique : forall {X} (l l' : list (Z * X)),
+      NoDup (map fst l) -> ksorted l -> ksorted l' -> Permutation l l' -> l = l'.
+  Proof.
+    intros X l. induction l as [|x l IH]; intros l' Hnd Hs Hs' Hp.
+    - apply Permutation_nil in Hp. symmetry. exact Hp.
+    - destruct l' as [|y l']; [apply Permutation_sym, Permutation_nil in Hp; discriminate|].
+      apply StronglySorted_inv in Hs. destruct Hs as [Hs Hall].
+      apply StronglySorted_inv in Hs'. destruct Hs' as [Hs' Hall'].
+      cbn [map] in Hnd. apply NoDup_cons_iff in Hnd. destruct Hnd as [Hnin Hnd].
+      assert (Hxy : x = y).
+      { assert (Hx : In x (y :: l')) by (eapply Permutation_in; [exact Hp|left; reflexivity]).
+        assert (Hy : In y (x :: l))
+          by (eapply Permutation_in; [apply Permutation_sym; exact Hp|left; reflexivity]).
+        destruct Hx as [Hx|Hx]; [symmetry; exact Hx|].
+        destruct Hy as [Hy|Hy]; [exact Hy|]. exfalso.
+        rewrite Forall_forall in Hall, Hall'.
+        specialize (Hall y Hy). specialize (Hall' x Hx). unfold kle in *.
+        apply Hnin. replace (fst x) with (fst y) by lia. apply in_map. exact Hy. }
+      subst y. f_equal. apply IH; try assumption. eapply Permutation_cons_inv. exact Hp.
+  Qed.
+
+  Lemma grouped_complete_nodup : forall a e,
+      NoDup (map fst e) -> grouped_equiv a e -> assert_grouped_kv_equal veqb a e = true.
+  Proof.
+    intros a e Hnd [e' [Hpe HF]]. apply grouped_sorted_iff.
+    destruct (Permutation_Forall2 (Permutation_sym (sort_by_key_perm _ a)) HF) as [e'' [Hpe' HF']].
+    replace (sort_by_key e) with e''; [exact HF'|].
+    assert (Hp : Permutation e'' (sort_by_key e)).
+    { eapply Permutation_trans; [apply Permutation_sym; exact Hpe'|].
+      eapply Permutation_trans; [apply Permutation_sym; exact Hpe|].
+      apply Permutation_sym, sort_by_key_perm. }
+    apply ksorted_perm_unique; [| |apply sort_by_key_sorted|exact Hp].
+    - eapply Permutation_NoDup; [|exact Hnd]. apply Permutation_map.
+      eapply Permutation_trans; [exact Hpe|exact Hpe'].
+    - eapply ksorted_keys; [apply group_eq_keys; exact HF'|apply sort_by_key_sorted].
+  Qed.
+
+  Lemma grouped_iff_nodup : forall a e,
+      NoDup (map fst a) -> NoDup (map fst e) ->
+      (assert_grouped_kv_equal veqb a e = true <-> grouped_equiv a e).
+  Proof.
+    intros a e _ Hnd. split; [apply grouped_sound|apply grouped_complete_nodup; exact Hnd].
+  Qed.
+
+  Lemma nodup_keys_functional : forall {X} (l : list (Z * X)) k v1 v2,
+      NoDup (map fst l) -> In (k, v1) l -> In (k, v2) l -> v1 = v2.
+  Proof.
+    intros X l k v1 v2. induction l as [|x l IH]; intros Hnd H1 H2; [destruct H1|].
+    cbn [map] in Hnd. apply NoDup_cons_iff in Hnd. destruct Hnd as [Hnin Hnd].
+    destruct H1 as [H1|H1], H2 as [H2|H2].
+    - rewrite H1 in H2. injection H2 as H2. exact H2.
+    - exfalso. apply Hnin. subst x. apply (in_map fst) in H2. exact H2.
+    - exfalso. apply Hnin. subst x. apply (in_map fst) in H1. exact H1.
+    - apply IH; assumption.
+  Qed.
+
+  Lemma grouped_multiplicity : forall (dec : forall x y : V, {x = y} + {x <> y}) a e k va ve x,
+      NoDup (map fst a) -> In (k, va) a -> In (k, ve) e ->
+      count_occ dec va x <> count_occ dec ve x ->
+      assert_grouped_kv_equal veqb a e = false.
+  Proof.
+    intros dec a e k va ve x Hnd Ha He Hne. apply not_true_is_false. intros Hacc.
+    apply grouped_sound in Hacc. destruct Hacc as [e' [Hpe HF]].
+    assert (He' : In (k, ve) e') by (eapply Permutation_in; eassumption).
+    assert (Hnd' : NoDup (map fst e')) by (rewrite <- (group_eq_keys _ _ HF); exact Hnd).
+    assert (Hex : exists y, In y e' /\ group_eq (k, va) y).
+    { clear - Ha HF. induction HF as [|x y a e' Hxy _ IH]; [destruct Ha|].
+      destruct Ha as [Ha|Ha].
+      - subst x. exists y. split; [left; reflexivity|exact Hxy].
+      - destruct (IH Ha) as [y' [Hy' Hg]]. exists y'. split; [right; exact Hy'|exact Hg]. }
+    destruct Hex as [[k' ve'] [Hin [Hk Hv]]]. cbn [fst snd] in Hk, Hv. subst k'.
+    assert (ve' = ve) by (eapply nodup_keys_functional; eassumption). subst ve'.
+    apply Hne. apply (Permutation_count_occ dec). exact Hv.
+  Qed.
+End Grouped.
+
+(* ---------- grouped data with distinct keys: the literal reading of the property ---------- *)
+Section GroupedLiteral.
+  Variable V : Type.
+  Variable veqb : V -> V -> bool.
+  Hypothesis veqb_spec : forall x y, reflect (x = y) (veqb x y).
+
+  (* "the same keys and, per key, the same multiset of values" *)
+  Definition same_keys_values (a e : list (Z * list V)) : Prop :=
+    (forall k, In k (map fst a) <-> In k (map fst e)) /\
+    (forall k va ve, In (k, va) a -> In (k, ve) e -> Permutation va ve).
+
+  Lemma Forall2_in_left : forall {X Y} (R : X -> Y -> Prop) l l' x,
+      Forall2 R l l' -> In x l -> exists y, In y l' /\ R x y.
+  Proof.
+    intros X Y R l l' x HF. induction HF as [|x0 y l l' Hxy _ IH]; intros Hin; [destruct Hin|].
+    destruct Hin as [Hin|Hin].
+    - subst x0. exists y. split; [left; reflexivity|exact Hxy].
+    - destruct (IH Hin) as [y' [Hy' Hr]]. exists y'. split; [right; exact Hy'|exact Hr].
+  Qed.
+
+  Lemma grouped_equiv_same_keys_values : forall a e,
+      NoDup (map fst a) -> grouped_equiv V a e -> same_keys_values a e.
+  Proof.
+    intros a e Hnd [e' [Hpe HF]].
+    assert (Hkeys : map fst a = map fst e') by (apply group_eq_keys; exact HF).
+    assert (Hpk : Permutation (map fst e) (map fst e')) by (apply Permutation_map; exact Hpe).
+    split.
+    - intros k. rewrite Hkeys. split; intros Hin.
+      + eapply Permutation_in; [apply Permutation_sym; exact Hpk|exact Hin].
+      + eapply Permutation_in; [exact Hpk|exact Hin].
+    - intros k va ve Ha He.
+      destruct (Forall2_in_left _ _ _ _ HF Ha) as [[k' ve'] [Hin [Hk Hv]]].
+      cbn [fst snd] in Hk, Hv. subst k'.
+      assert (He' : In (k, ve) e') by (eapply Permutation_in; eassumption).
+      assert (Hnd' : NoDup (map fst e')) by (rewrite <- Hkeys; exact Hnd).
+      assert (ve' = ve) by (eapply nodup_keys_functional; eassumption). subst ve'. exact Hv.
+  Qed.
+
+  Lemma same_keys_values_grouped_equiv : forall a e,
+      NoDup (map fst a) -> NoDup (map fst e) -> same_keys_values a e -> grouped_equiv V a e.
+  Proof.
+    induction a as [|[k va] a IH]; intros e Hnda Hnde [Hkeys Hvals].
+    - destruct e as [|y e].
+      + exists []. split; constructor.
+      + exfalso. apply (proj2 (Hkeys (fst y))). left. reflexivity.
+    - cbn [map fst] in Hnda. apply NoDup_cons_iff in Hnda. destruct Hnda as [Hnin Hnda].
+      assert (Hk : In k (map fst e)) by (apply Hkeys; left; reflexivity).
+      apply in_map_iff in Hk. destruct Hk as [[k' ve] [Hk' Hin]]. cbn [fst] in Hk'. subst k'.
+      destruct (in_split _ _ Hin) as [e1 [e2 He]]. subst e.
+      assert (Hnde' : NoDup (map fst (e1 ++ e2))).
+      { rewrite map_app in *. cbn [map fst] in Hnde. apply NoDup_remove_1 in Hnde. exact Hnde. }
+      assert (Hnk : ~ In k (map fst (e1 ++ e2))).
+      { rewrite map_app in *. cbn [map fst] in Hnde. apply NoDup_remove_2 in Hnde. exact Hnde. }
+      destruct (IH (e1 ++ e2) Hnda Hnde') as [e0 [Hp0 HF0]].
+      { split.
+        - intros k'. split; intros Hin'.
+          + assert (Hne : k' <> k) by (intros ->; contradiction).
+            assert (H1 : In k' (map fst (e1 ++ (k, ve) :: e2))) by (apply Hkeys; right; exact Hin').
+            rewrite map_app in *. cbn [map fst] in H1. apply in_app_or in H1. apply in_or_app.
+            destruct H1 as [H1|[H1|H1]]; [left; exact H1|exfalso; apply Hne; symmetry; exact H1|right; exact H1].
+          + assert (Hne : k' <> k) by (intros ->; contradiction).
+            assert (H1 : In k' (map fst ((k, va) :: a))).
+            { apply Hkeys. rewrite map_app in *. cbn [map fst]. apply in_app_or in Hin'. apply in_or_app.
+              destruct Hin' as [H|H]; [left; exact H|right; right; exact H]. }
+            destruct H1 as [H1|H1]; [exfalso; apply Hne; symmetry; exact H1|exact H1].
+        - intros k' va' ve' Ha' He'. apply (Hvals k'); [right; exact Ha'|].
+          apply in_app_or in He'. apply in_or_app.
+          destruct He' as [H|H]; [left; exact H|right; right; exact H]. }
+      exists ((k, ve) :: e0). split.
+      + eapply Permutation_trans; [apply Permutation_sym, Permutation_middle|].
+        constructor. exact Hp0.
+      + constructor; [|exact HF0]. split; [reflexivity|]. cbn [snd].
+        apply (Hvals k); [left; reflexivity|exact Hin].
+  Qed.
+
+  Lemma grouped_iff_same_keys_values : forall a e,
+      NoDup (map fst a) -> NoDup (map fst e) ->
+      (assert_grouped_kv_equal veqb a e = true <-> same_keys_values a e).
+  Proof.
+    intros a e Hnda Hnde. rewrite (grouped_iff_nodup V veqb veqb_spec a e Hnda Hnde). split.
+    - apply grouped_equiv_same_keys_values. exact Hnda.
+    - apply same_keys_values_grouped_equiv; assumption.
+  Qed.
+End GroupedLiteral.
